@@ -36,8 +36,12 @@ def default_bytes(ty, v):
 def struct_layout(members, structs, force_align=0):
     off, align, offs = 0, 1, []
     for nm, ty in members:
-        if ty in SCALARS: sz, al = SCALARS[ty], SCALARS[ty]
+        cnt = 1
+        if ':' in ty: ty, cnt = ty.split(':')[0], int(ty.split(':')[1])       # fixed array member  elem:count
+        if ty == 'char': sz, al = 1, 1
+        elif ty in SCALARS: sz, al = SCALARS[ty], SCALARS[ty]
         else: sz, al = structs[ty]['size'], structs[ty]['align']
+        sz *= cnt
         off = (off + al - 1) // al * al
         offs.append(off); off += sz; align = max(align, al)
     align = max(align, force_align)
@@ -61,6 +65,8 @@ def gen_schema(rng, nstructs=2, ntables=3, nunions=1, features=None, fixed=None)
             prev = [s for s in S['struct_order']]
             if prev and rng.random() < 0.25: ty = rng.choice(prev)
             else: ty = rng.choice(list(SCALARS))
+            if j == nmem - 1 and rng.random() < 0.35: ty = 'char:%d' % rng.choice([1, 3, 4, 5, 8])      # a char array as the last member
+            elif ty in SCALARS and rng.random() < 0.15: ty = '%s:%d' % (ty, rng.choice([1, 2, 3]))
             mem.append(('m%d' % j, ty))
         fa = 0 if tiny else rng.choice([0, 0, 0, 16, 8])
         size, align, offs = struct_layout(mem, S['structs'], fa)
@@ -128,7 +134,7 @@ def render_fbs(S):
     for nm in S['struct_order']:
         st = S['structs'][nm]
         o.append('struct %s%s { %s }' % (nm, ' (force_align: %d)' % st['force_align'] if st['force_align'] else '',
-                                         ' '.join('%s:%s;' % m for m in st['members'])))
+                                         ' '.join('%s:%s;' % (m, ('[%s]' % t) if ':' in t else t) for m, t in st['members'])))
     for u in S['unions']:
         ms = []
         for k, v in u['members']:
@@ -206,7 +212,8 @@ def render_walker(S, prefix):
         st = S['structs'][nm]
         o.append('static void walk_%s(%s_struct_t s) { if (!s) return;' % (nm, nm))
         for m, ty in st['members']:
-            if ty in ('float', 'double'): o.append('  { %s v = %s_%s(s); sink_mem(&v, sizeof(v)); }' % (ty, nm, m))
+            if ':' in ty: o.append('  sink_mem(%s_%s_get_ptr(s), %s_%s_get_len() * sizeof(*%s_%s_get_ptr(s)));' % (nm, m, nm, m, nm, m))
+            elif ty in ('float', 'double'): o.append('  { %s v = %s_%s(s); sink_mem(&v, sizeof(v)); }' % (ty, nm, m))
             elif ty in SCALARS: o.append('  sink += (uint64_t)%s_%s(s);' % (nm, m))
             else: o.append('  walk_%s(%s_%s(s));' % (ty, nm, m))
         o.append('  sink_mem(s, %d); }' % st['size'])
